@@ -440,6 +440,7 @@ const followPkg = "rare/pkg/followreader"
 
 func runC15(c *Ctx, r *Report) {
 	c15Signals(c, r)
+	c15EventFilter(c, r)
 	c15Poller(c, r)
 	c15TimeFlush(c, r)
 	borrow(c, r, func(c *Ctx, r *Report) { c01BatcherLoops(c, r, "C01-b") }, "C01-b", "C15-c", func(o Ob) bool { return strings.Contains(o.Key, "WithTimeFlush") }, false)
@@ -730,4 +731,97 @@ func c15TimeFlush(c *Ctx, r *Report) {
 	})
 	r.Check(okCond, rule, fi.Name, "size || elapsed => send", c.Pos(loop.Pos()), "shape: a batch is sent when it is full or the timeout elapsed", "the elapsed-time test no longer leads to a send")
 	r.Floor(rule, 2, "timestamp renewal and flush condition")
+}
+
+// c15EventFilter (C15-a/event-filter): the watcher observes a whole directory;
+// an event concerns the followed file exactly when its name equals the
+// followed name. Every expression of the watcher that relates the event's
+// name to the followed file name must be an equality test of the two names,
+// both taken raw or both through the same function (path.Base, filepath.Clean).
+func c15EventFilter(c *Ctx, r *Report) {
+	const rule = "C15-a/event-filter"
+	fi := c.MustFunc(r, rule, followPkg, "(*NotifyFollowReader).startWatcher")
+	if fi == nil {
+		return
+	}
+	info := fi.Pkg.TypesInfo
+	mentions := func(e ast.Node) (ev, fn bool) {
+		ast.Inspect(e, func(x ast.Node) bool {
+			se, ok := x.(*ast.SelectorExpr)
+			if !ok {
+				return true
+			}
+			fv := fieldVar(info, se)
+			if fv == nil {
+				return true
+			}
+			if fv.Name() == "Name" && fv.Pkg() != nil && strings.HasSuffix(fv.Pkg().Path(), "fsnotify") {
+				ev = true
+			}
+			if fv.Pkg() != nil && fv.Pkg().Path() == followPkg {
+				if b, ok := fv.Type().Underlying().(*types.Basic); ok && b.Kind() == types.String {
+					fn = true
+				}
+			}
+			return true
+		})
+		return
+	}
+	wrapper := func(e ast.Expr) string {
+		e = ast.Unparen(e)
+		if ce, ok := e.(*ast.CallExpr); ok && len(ce.Args) == 1 {
+			return calleeName(info, ce)
+		}
+		if _, ok := e.(*ast.SelectorExpr); ok {
+			return "raw"
+		}
+		return "?"
+	}
+	n := 0
+	var visit func(x ast.Node) bool
+	visit = func(x ast.Node) bool {
+		e, ok := x.(ast.Expr)
+		if !ok {
+			return true
+		}
+		ev, fn := mentions(e)
+		if !ev || !fn {
+			return true
+		}
+		// smallest expression relating the two: descend while a child still mentions both
+		switch t := ast.Unparen(e).(type) {
+		case *ast.BinaryExpr:
+			xe, xf := mentions(t.X)
+			ye, yf := mentions(t.Y)
+			if (xe && xf) || (ye && yf) {
+				return true
+			}
+			n++
+			okEq := (t.Op == token.EQL || t.Op == token.NEQ) && wrapper(t.X) == wrapper(t.Y) && wrapper(t.X) != "?"
+			r.Check(okEq, rule, fi.Name, exprStr(t), c.Pos(t.Pos()), "shape: the event name and the followed name are compared for equality through the same normalisation",
+				"the watcher relates the event's name to the followed file by "+exprStr(t)+", which is not an equality of the two names under one normalisation: events of other files in the directory (e.g. a sibling whose name ends with the followed name) are taken for events of the followed file - its removal ends or restarts the stream")
+			return false
+		case *ast.FuncLit:
+			return true
+		case *ast.CallExpr:
+			if fe, ff := mentions(t.Fun); fe && ff {
+				return true
+			}
+			for _, a := range t.Args {
+				ae, af := mentions(a)
+				if ae && af {
+					return true
+				}
+			}
+			n++
+			r.Bad(rule, fi.Name, exprStr(t), c.Pos(t.Pos()), "the watcher relates the event's name to the followed file through "+exprStr(t.Fun)+" instead of an equality test: events of other files in the directory (a sibling whose name merely ends with / contains the followed name) are taken for events of the followed file, so its removal ends or restarts the stream and data is lost or delivered twice")
+			return false
+		}
+		return true
+	}
+	ast.Inspect(fi.Decl.Body, visit)
+	if n == 0 {
+		r.Bad(rule, fi.Name, "event filter", c.Pos(fi.Decl.Pos()), "the watcher no longer compares the event's name with the followed file: every event in the directory is taken for the followed file")
+	}
+	r.Floor(rule, 1, "the name test in the watcher goroutine")
 }
